@@ -23,7 +23,10 @@ import (
 )
 
 type c29Op struct {
-	Kind  string   `json:"kind"` // init | put (prepare+commit back to back: create or reload) | prep (prepare only) | commit | del
+	// init | initbroken (configuration present at start-up that NewNamespace refuses) |
+	// put (prepare+commit back to back: create or reload) | prep (prepare only) |
+	// prepfail (prepare of a configuration NewNamespace refuses) | commit | del
+	Kind  string   `json:"kind"`
 	NS    string   `json:"ns"`
 	Users []mgUser `json:"users,omitempty"`
 }
@@ -37,6 +40,9 @@ type c29Case struct {
 	Names     []string `json:"probe_users"`
 	Passwords []string `json:"probe_passwords"`
 	SaltHex   string   `json:"salt_hex"`
+	// Plain maps a stored password of the '*'+40 hex form to the clear text behind it (the
+	// client proves knowledge of the clear text; only mysql_native_password can verify it)
+	Plain map[string]string `json:"plain,omitempty"`
 }
 
 type c29Failure struct {
@@ -114,6 +120,8 @@ func c29Valid(c c29Case) bool {
 			}
 			prepared[op.NS] = op.Users
 			return true
+		case "prepfail", "initbroken":
+			return wellFormed(op) // refused by NewNamespace: no effect
 		case "commit":
 			// whether the manager accepts it is for the manager to decide; split histories are
 			// restricted below so that no outcome can put one pair into two namespaces
@@ -131,7 +139,7 @@ func c29Valid(c c29Case) bool {
 		return false
 	}
 	for _, op := range c.More {
-		if op.Kind != "init" || op.NS == c.Init.NS || !apply(op) {
+		if (op.Kind != "init" && op.Kind != "initbroken") || op.NS == c.Init.NS || !apply(op) {
 			return false
 		}
 	}
@@ -139,7 +147,7 @@ func c29Valid(c c29Case) bool {
 	for _, op := range c.Ops {
 		switch op.Kind {
 		case "put", "del":
-		case "prep", "commit":
+		case "prep", "prepfail", "commit":
 			split = true
 		default:
 			return false
@@ -172,8 +180,15 @@ func (r *c29Rig) run(c c29Case, onlyFirst bool) []c29Failure {
 	salt, _ := hex.DecodeString(c.SaltHex)
 	type proofs struct{ native, sha2 []byte }
 	pf := map[string]proofs{}
+	hashForm := map[string]bool{}
 	for _, p := range c.Passwords {
-		pf[p] = proofs{mgNativeProof(salt, []byte(p)), mgSha2Proof(salt, []byte(p))}
+		clear := p
+		if plain, ok := c.Plain[p]; ok {
+			if _, isHash := mgIsHashForm(p); isHash {
+				clear, hashForm[p] = plain, true
+			}
+		}
+		pf[p] = proofs{mgNativeProof(salt, []byte(clear)), mgSha2Proof(salt, []byte(clear))}
 	}
 	initial := []*models.Namespace{mgNamespaceConfig(c.Init.NS, 0, c.Init.Users)}
 	ref := map[mgUser]string{}
@@ -182,6 +197,12 @@ func (r *c29Rig) run(c c29Case, onlyFirst bool) []c29Failure {
 		ref[u] = c.Init.NS
 	}
 	for _, op := range c.More {
+		if op.Kind == "initbroken" {
+			// in the configuration map at start-up, refused by NewNamespace: CreateNamespaceManager
+			// skips it (CreateUserManager still registers its users); it is not served
+			initial = append(initial, mgBrokenConfig(op.NS, 0, op.Users))
+			continue
+		}
 		initial = append(initial, mgNamespaceConfig(op.NS, 0, op.Users))
 		live[op.NS] = op.Users
 		for _, u := range op.Users {
@@ -207,15 +228,17 @@ func (r *c29Rig) run(c c29Case, onlyFirst bool) []c29Failure {
 						resp = pf[pw].sha2
 					}
 					res := r.sess.auth(m, un, salt, resp, ps.plugin)
+					// a stored SHA1 hash can only be verified with mysql_native_password
+					expect := configured && !(hashForm[pw] && ps.scheme == "sha2")
 					cl := ""
 					switch {
 					case res.Panic != "":
 						cl = "panic"
-					case configured && !res.Accepted():
+					case expect && !res.Accepted():
 						cl = "false-reject"
-					case !configured && res.Accepted():
+					case !expect && res.Accepted():
 						cl = "false-accept"
-					case configured && res.Namespace != want:
+					case expect && res.Namespace != want:
 						cl = "wrong-namespace"
 					}
 					if res.Passed && !res.Live {
@@ -271,6 +294,15 @@ func (r *c29Rig) run(c c29Case, onlyFirst bool) []c29Failure {
 				return fails
 			}
 			prepared[op.NS] = op.Users
+		} else if op.Kind == "prepfail" {
+			trigger = "prepare-failed"
+			// a failed prepare changes nothing, including what a later commit may activate
+			if err := m.ReloadNamespacePrepare(mgBrokenConfig(op.NS, i+1, op.Users)); err == nil {
+				r.rec.Count("split.broken-config-accepted", 1)
+				prepared[op.NS] = op.Users
+			} else {
+				r.rec.Count("split.prepare-failed", 1)
+			}
 		} else if op.Kind == "commit" {
 			trigger = "commit"
 			var err error
@@ -358,7 +390,7 @@ func c29MapColons(c c29Case, users, passwords bool) c29Case {
 		}
 		return o
 	}
-	d := c29Case{Init: mop(c.Init), SaltHex: c.SaltHex}
+	d := c29Case{Init: mop(c.Init), SaltHex: c.SaltHex, Plain: c.Plain}
 	for _, op := range c.More {
 		d.More = append(d.More, mop(op))
 	}
@@ -509,8 +541,13 @@ func c29Describe(c c29Case) string {
 		if op.Kind == "init" {
 			k = "start with"
 		}
-		if op.Kind == "prep" {
+		switch op.Kind {
+		case "prep":
 			k = "prepare"
+		case "prepfail":
+			k = "prepare (refused by NewNamespace)"
+		case "initbroken":
+			k = "start with (refused by NewNamespace)"
 		}
 		return fmt.Sprintf("%s %s{%s}", k, op.NS, strings.Join(us, ","))
 	}
@@ -527,10 +564,13 @@ func c29Describe(c c29Case) string {
 // ---------------------------------------------------------------- generation
 
 var (
+	c29Hash1       = mgHashForm([]byte("h1"))
+	c29Hash2       = mgHashForm([]byte("h2"))
+	c29Plain       = map[string]string{c29Hash1: "h1", c29Hash2: "h2"}
 	c29SmallUsers  = []string{"a", "a:b"}
-	c29SmallPws    = []string{"a", "b", "a:b", "b:a"}
+	c29SmallPws    = []string{"a", "b", "a:b", "b:a", c29Hash1}
 	c29SampleUsers = []string{"a", "b", "a:b", ":", "a;b"}
-	c29SamplePws   = []string{"a", "b", ":", "a:b", "b:a", "::", "a;b", "x:y:z"}
+	c29SamplePws   = []string{"a", "b", ":", "a:b", "b:a", "::", "a;b", "x:y:z", c29Hash1, c29Hash2}
 )
 
 func c29Salt(r *kit.Rand) string { return hex.EncodeToString(r.Bytes(20)) }
@@ -564,7 +604,7 @@ func c29Enumerate(maxOps int, salt string, f func(c29Case)) {
 	}
 	for _, u := range c29SmallUsers {
 		for _, p := range c29SmallPws {
-			rec(c29Case{Init: c29Op{Kind: "init", NS: "n1", Users: []mgUser{{u, p}}}, Names: c29SmallUsers, Passwords: c29SmallPws, SaltHex: salt})
+			rec(c29Case{Init: c29Op{Kind: "init", NS: "n1", Users: []mgUser{{u, p}}}, Names: c29SmallUsers, Passwords: c29SmallPws, SaltHex: salt, Plain: c29Plain})
 		}
 	}
 }
@@ -574,7 +614,7 @@ func c29Enumerate(maxOps int, salt string, f func(c29Case)) {
 func c29Sample(r *kit.Rand) c29Case {
 	nss := []string{"n1", "n2", "n3"}
 	for {
-		c := c29Case{Names: c29SampleUsers, Passwords: c29SamplePws, SaltHex: c29Salt(r)}
+		c := c29Case{Names: c29SampleUsers, Passwords: c29SamplePws, SaltHex: c29Salt(r), Plain: c29Plain}
 		taken := map[mgUser]string{}
 		live := map[string][]mgUser{}
 		mk := func(ns string) []mgUser {
@@ -630,49 +670,61 @@ func c29Sample(r *kit.Rand) c29Case {
 	}
 }
 
-// c29SplitEnumerate calls f for every history of exactly nOps split operations
-// (prepare / commit / delete on n1, n2, n3) on a manager that starts with n1 and n2; shorter
-// histories are their prefixes (the oracle runs after every step). Every configuration has
-// user "a" with a password unique to (namespace, position), so any order of commits is valid.
+// c29SplitEnumerate calls f for every history of exactly nOps split operations (prepare /
+// prepare of a configuration NewNamespace refuses / commit / delete on n1, n2, n3) on a
+// manager that starts with n1 and n2, once with n3 absent and once with n3 present in the
+// start-up configuration but refused by NewNamespace. Shorter histories are their prefixes
+// (the oracle runs after every step). Every configuration has user "a" with a password
+// unique to (namespace, position), so any order of commits is valid; n2 starts with a
+// '*'-hash password, so user "a" has a hash-form entry before clear-text ones.
 func c29SplitEnumerate(nOps int, salt string, f func(c29Case)) {
 	nss := []string{"n1", "n2", "n3"}
 	pw := func(ns string, i int) string { return fmt.Sprintf("%s:%d", ns, i) }
-	base := c29Case{Init: c29Op{Kind: "init", NS: "n1", Users: []mgUser{{"a", pw("n1", 0)}}},
-		More: []c29Op{{Kind: "init", NS: "n2", Users: []mgUser{{"a", pw("n2", 0)}}}}, Names: []string{"a"}, SaltHex: salt}
-	for _, ns := range nss {
-		for i := 0; i <= nOps; i++ {
-			base.Passwords = append(base.Passwords, pw(ns, i))
+	n2plain := "n2-clear-text"
+	n2hash := mgHashForm([]byte(n2plain))
+	for _, brokenAtStart := range []bool{false, true} {
+		base := c29Case{Init: c29Op{Kind: "init", NS: "n1", Users: []mgUser{{"a", pw("n1", 0)}}},
+			More:  []c29Op{{Kind: "init", NS: "n2", Users: []mgUser{{"a", n2hash}}}},
+			Names: []string{"a"}, SaltHex: salt, Plain: map[string]string{n2hash: n2plain}, Passwords: []string{n2hash}}
+		if brokenAtStart {
+			base.More = append(base.More, c29Op{Kind: "initbroken", NS: "n3", Users: []mgUser{{"a", pw("n3", 0)}}})
 		}
-	}
-	var rec func(ops []c29Op)
-	rec = func(ops []c29Op) {
-		if len(ops) == nOps {
-			c := base
-			c.Ops = append([]c29Op(nil), ops...)
-			f(c)
-			return
-		}
-		for _, k := range []string{"prep", "commit", "del"} {
-			for _, ns := range nss {
-				op := c29Op{Kind: k, NS: ns}
-				if k == "prep" {
-					op.Users = []mgUser{{"a", pw(ns, len(ops)+1)}}
-				}
-				rec(append(append([]c29Op(nil), ops...), op))
+		for _, ns := range nss {
+			for i := 0; i <= nOps; i++ {
+				base.Passwords = append(base.Passwords, pw(ns, i))
 			}
 		}
+		var rec func(ops []c29Op)
+		rec = func(ops []c29Op) {
+			if len(ops) == nOps {
+				c := base
+				c.Ops = append([]c29Op(nil), ops...)
+				f(c)
+				return
+			}
+			for _, k := range []string{"prep", "prepfail", "commit", "del"} {
+				for _, ns := range nss {
+					op := c29Op{Kind: k, NS: ns}
+					if k == "prep" || k == "prepfail" {
+						op.Users = []mgUser{{"a", pw(ns, len(ops)+1)}}
+					}
+					rec(append(append([]c29Op(nil), ops...), op))
+				}
+			}
+		}
+		rec(nil)
 	}
-	rec(nil)
 }
 
-// c29SplitSample draws a history that mixes split prepare / commit / delete with atomic
-// reloads over 3 namespaces; user names are shared between namespaces, every password
-// string belongs to one (namespace, position) only.
+// c29SplitSample draws a history that mixes split prepare / failing prepare / commit /
+// delete with atomic reloads over 3 namespaces, some of them present but refused at
+// start-up; user names are shared between namespaces, every password string belongs to one
+// (namespace, position) only, and about a quarter of them are stored in '*'-hash form.
 func c29SplitSample(r *kit.Rand) c29Case {
 	nss := []string{"n1", "n2", "n3"}
 	names := []string{"a", "b", "a:b"}
 	bases := []string{"x", "x:y", ":", "p;q"}
-	c := c29Case{Names: names, SaltHex: c29Salt(r), Passwords: []string{"never"}}
+	c := c29Case{Names: names, SaltHex: c29Salt(r), Passwords: []string{"never"}, Plain: map[string]string{}}
 	users := func(ns string, pos int) []mgUser {
 		perm := r.Perm(len(names))
 		var us []mgUser
@@ -681,6 +733,11 @@ func c29SplitSample(r *kit.Rand) c29Case {
 			if j > 0 {
 				p += "'"
 			}
+			if r.Chance(1, 4) {
+				h := mgHashForm([]byte(p))
+				c.Plain[h] = p
+				p = h
+			}
 			c.Passwords = append(c.Passwords, p)
 			us = append(us, mgUser{names[perm[j]], p})
 		}
@@ -688,16 +745,23 @@ func c29SplitSample(r *kit.Rand) c29Case {
 	}
 	first := r.Intn(3)
 	c.Init = c29Op{Kind: "init", NS: nss[first], Users: users(nss[first], 0)}
-	if r.Chance(2, 3) {
-		second := (first + 1 + r.Intn(2)) % 3
-		c.More = []c29Op{{Kind: "init", NS: nss[second], Users: users(nss[second], 0)}}
+	for k := 1; k <= 2; k++ {
+		ns := nss[(first+k)%3]
+		switch r.Intn(3) {
+		case 0:
+			c.More = append(c.More, c29Op{Kind: "init", NS: ns, Users: users(ns, 0)})
+		case 1:
+			c.More = append(c.More, c29Op{Kind: "initbroken", NS: ns, Users: users(ns, 0)})
+		}
 	}
 	n := r.Range(3, 8)
 	for i := 0; i < n; i++ {
 		ns := r.Pick(nss)
 		switch x := r.Intn(20); {
-		case x < 7:
+		case x < 6:
 			c.Ops = append(c.Ops, c29Op{Kind: "prep", NS: ns, Users: users(ns, i+1)})
+		case x < 8:
+			c.Ops = append(c.Ops, c29Op{Kind: "prepfail", NS: ns, Users: users(ns, i+1)})
 		case x < 13:
 			c.Ops = append(c.Ops, c29Op{Kind: "commit", NS: ns})
 		case x < 16:
@@ -710,13 +774,15 @@ func c29SplitSample(r *kit.Rand) c29Case {
 }
 
 func TestVerif_C29(t *testing.T) {
-	rec := kit.Start("C29", "exploration", "histories on the real Manager: (1) every valid history of the small space (initial namespace with one user, then up to k single-user create/reload/delete operations over 2 namespaces, users {a, a:b} x passwords {a, b, a:b, b:a}); (2) seeded histories of the larger space (3 namespaces, 1..3 users per configuration, up to 6 operations, 5 user names x 8 passwords with ':' / '::' / ';'); (3) split control-plane operations: every history of exactly k operations over prepare / commit / delete x 3 namespaces (two configured at start), and seeded histories of up to 8 operations mixing split and atomic operations; after every step all user x password pairs are probed through 4 password-check paths against the set of pairs active under the abstract control-plane specification; non-trivial = distinct histories in which a namespace is changed while another one is live, or an operation falls between a prepare and a later commit")
+	rec := kit.Start("C29", "exploration", "histories on the real Manager: (1) every valid history of the small space (initial namespace with one user, then up to k single-user create/reload/delete operations over 2 namespaces, users {a, a:b} x passwords {a, b, a:b, b:a}); (2) seeded histories of the larger space (3 namespaces, 1..3 users per configuration, up to 6 operations, 5 user names x 8 passwords with ':' / '::' / ';'); (3) split control-plane operations: every history of exactly k operations over prepare / prepare refused by NewNamespace / commit / delete x 3 namespaces (two configured at start, the third absent or present-but-refused at start-up), and seeded histories of up to 8 operations mixing split and atomic operations; passwords are clear text or '*'-hash form for shared user names; after every step all user x password pairs are probed through 4 password-check paths against the set of pairs active under the abstract control-plane specification; non-trivial = distinct histories in which a namespace is changed while another one is live, or an operation falls between a prepare and a later commit")
 	defer rec.Finish(t)
 	if err := mgInit(); err != nil {
 		t.Fatal(err)
 	}
 	defer mgCleanup()
 	rec.Assume("configurations are ones the control plane accepts: every namespace has users, user names unique inside a namespace, no empty name or password, a (user, password) pair never configured in two namespaces at once; in parts (1) and (2) create and reload are prepare immediately followed by commit")
+	rec.Assume("a namespace whose configuration NewNamespace refuses at start-up is not served: its pairs are not in the reference set (the unchanged tree registers its users but binds them to a namespace that does not exist, and Session.Handshake refuses that); a prepare that fails changes nothing, including what a later commit may activate")
+	rec.Assume("a pair whose password is stored in '*'-hash form is expected to be let in with the mysql_native_password proof of its clear text only; under caching_sha2_password no proof exists for it")
 	rec.Assume("split histories: prepare(n,cfg) records cfg as last prepared for n and changes no credential; commit(n) may be refused (no credential changes) or accepted (needs a configuration prepared for n; exactly its pairs replace n's pairs); delete(n) removes n's pairs; nothing else changes. Every password string of a split history belongs to one namespace, so every commit order is a valid configuration")
 	rec.Assume("'let in' means handleHandshakeResponse returned nil and the bound namespace exists in the manager (Session.Handshake refuses a session whose namespace does not exist)")
 	rec.Assume("in parts (1) and (2) the manager starts with exactly one namespace, so that CreateUserManager's map iteration cannot make outcomes differ between runs; split histories may start with two (their pairs are distinct strings); namespaces have no backend addresses")
@@ -733,7 +799,9 @@ func TestVerif_C29(t *testing.T) {
 		// non-trivial: a user name shared by two live namespaces at some point, or a change while another namespace is live
 		live := map[string][]mgUser{c.Init.NS: c.Init.Users}
 		for _, op := range c.More {
-			live[op.NS] = op.Users
+			if op.Kind == "init" {
+				live[op.NS] = op.Users
+			}
 		}
 		nt := false
 		for i, op := range c.Ops {
@@ -743,7 +811,7 @@ func TestVerif_C29(t *testing.T) {
 					others++
 				}
 			}
-			if others > 0 && op.Kind != "prep" {
+			if others > 0 && op.Kind != "prep" && op.Kind != "prepfail" {
 				nt = true
 			}
 			switch op.Kind {
@@ -751,7 +819,7 @@ func TestVerif_C29(t *testing.T) {
 				delete(live, op.NS)
 			case "put":
 				live[op.NS] = op.Users
-			case "prep":
+			case "prep", "prepfail":
 				// split histories: something happens between this prepare and a later commit
 				for j := i + 2; j < len(c.Ops); j++ {
 					if c.Ops[j].Kind == "commit" {
